@@ -19,6 +19,7 @@ import (
 	"github.com/ansible/receptor/pkg/logger"
 	"github.com/ansible/receptor/pkg/netceptor"
 	"github.com/ansible/receptor/pkg/utils"
+	"github.com/ansible/receptor/pkg/verifhook"
 )
 
 // remoteUnit implements the WorkUnit interface for the Receptor remote worker plugin.
@@ -193,6 +194,7 @@ func (rw *remoteUnit) startRemoteUnit(ctx context.Context, conn net.Conn, reader
 		ed := status.ExtraData.(*RemoteExtraData)
 		ed.RemoteUnitID = red.RemoteUnitID
 	})
+	verifhook.Step("remote.id.saved", rw.StatusFileName())
 	stdin, err := os.Open(path.Join(rw.UnitDir(), "stdin"))
 	if err != nil {
 		return fmt.Errorf("error opening stdin file: %s", err)
@@ -484,6 +486,7 @@ func (rw *remoteUnit) monitorRemoteStdout(mw *utils.JobContext) {
 					return
 				}
 			}()
+			verifhook.Step("remote.stdout.copy", rw.StatusFileName())
 			_, err = io.Copy(stdout, reader)
 			close(doneChan)
 			if err != nil {
